@@ -26,6 +26,8 @@ PROPS = {
     "C09": dict(pkg="c09", shards=(2, 8), timeout=(900, 5400)),
     "C10": dict(pkg="c10", shards=(2, 8), timeout=(600, 3600)),
     "C13": dict(pkg="c13", race=True, shards=(4, 16), timeout=(600, 5400)),
+    "C14": dict(pkg="c14", shards=(4, 16), timeout=(600, 3600)),
+    "C15": dict(pkg="c15", shards=(4, 16), timeout=(600, 3600)),
     "C16": dict(pkg="c16", shards=(4, 16), timeout=(600, 3600)),
     "C17": dict(pkg="c17", shards=(2, 16), timeout=(300, 3600)),
     "C18": dict(pkg="c18", shards=(4, 16), timeout=(600, 3600)),
